@@ -211,7 +211,7 @@ def text_read(fmt, endian, f):
 def arc_write(files, rng, padded=True, permute_bodies=True, unaligned=False, gaps=False, count_first=True,
               extra_labels=True, shuffle_tables=False, drop=None, bad_name=None, bad_range=None, count_delta=0,
               junk_text=False, raw_offset=None, dup_strings=False, tail=0.0, end_exact=False, share=False, empty_last=False,
-              indices="seq", decoys=None):
+              indices="seq", decoys=None, data_label="base"):
     """files: [(name bytes, body bytes)] in RECORD order.  Returns (image, expected) with expected = 'ok' or the
     name of the error the property demands.  Knobs: header padding, body placement (order, alignment, gaps),
     Count before/after Info, extra labels; error variants: drop = 'count' | 'info' (label missing),
@@ -328,7 +328,14 @@ def arc_write(files, rng, padded=True, permute_bodies=True, unaligned=False, gap
             d += bytes(align4(len(d)) - len(d))
         labels = (extra + labels) if rng.random() < 0.5 else (labels + extra)
     if extra_labels:
-        labels.append((base, b"Data"))
+        # the game files label the header end "Data"; the property does not mention that label, so an image may carry it on the
+        # header end, nowhere, or on something else (seeded change C16-4 took the base of all offsets from a label called "Data")
+        if data_label == "base":
+            labels.append((base, b"Data"))
+        elif data_label == "body" and offs:
+            labels.append((base + max(offs.values()), b"Data"))
+        elif data_label == "end":
+            labels.append((len(d), b"Data"))
     expected = "ok"
     if bad_range is not None:
         # make record bad_range point beyond the end of the final data region (size >= 1)
